@@ -279,7 +279,7 @@ Section BertRef.
     { unfold serve_ref. rewrite honest_is_bert. unfold honest_bert. cbn [rq rq_block1 rq_block2]. replace (0 <? j) with true by lia.
       rewrite (hb_mis _ _ _ Hh). reflexivity. }
     rewrite Hserve. rewrite (respond_bert _ _ _ _ j) by (eauto || lia). fold got. cbv zeta.
-    cbn [rs_block2]. unfold append_response_block. cbn [rs_block2 rs_payload rs_etag].
+    cbn [rs_block2]. rewrite append_response_block_eq. unfold append_inline. cbn [rs_block2 rs_payload rs_etag].
     unfold bt_is_valid_for_payload_size, bt_is_bert. cbn [Z.eqb Pos.eqb bind]. rewrite bt_start_spec. cbn [bind].
     change (Z.min 7 6) with 6. rewrite bsize_6. fold got. rewrite Hlen, Z.eqb_refl, Het, etag_eqb_refl. cbn [negb].
     destruct (got + B2 <? blen rep) eqn:Emore.
